@@ -12,6 +12,20 @@ import mdibrun
 from mdibrun import Canon, NotificationRecorder, VClock, SeededUuid
 
 from sdc11073.exceptions import ApiUsageError
+from sdc11073.mdib import consumermdib as _cmod
+
+# number of real-time samples ever appended to a consumer waveform buffer (the deque itself is bounded)
+RT_ADDED = [0]
+_orig_add_rt = _cmod.ConsumerRtBuffer.add_rt_sample_containers
+
+
+def _counting_add_rt(self, sc):
+    sc = list(sc)
+    RT_ADDED[0] += len(sc)
+    return _orig_add_rt(self, sc)
+
+
+_cmod.ConsumerRtBuffer.add_rt_sample_containers = _counting_add_rt
 
 req = json.load(sys.stdin)
 
@@ -74,6 +88,8 @@ class Runner:
         self.stored = []          # fault streams: raw notification requests in emission order
         self.pending = []
         self.pending_seen = _IdSet()
+        self.delivered_ids = set()
+        self.last_ex = None
         if case.get('delivery') is not None and self.cons is not None:
             cons_netloc = self.cons._verif_server.netloc
 
@@ -162,14 +178,30 @@ class Runner:
         r['n'] = self.stored.index(ex) if ex in self.stored else None
         return r
 
+    def fingerprint(self):
+        """cheap identity of the consumer MDIB content: version group, every version counter, number of real-time
+        samples ever put into the waveform buffers"""
+        cm = self.cm
+        return (cm.mdib_version, cm.sequence_id, cm.instance_id,
+                tuple(sorted((d.Handle, d.DescriptorVersion) for d in cm.descriptions.objects)),
+                tuple(sorted((s.DescriptorHandle, s.StateVersion, s.DescriptorVersion) for s in cm.states.objects)),
+                tuple(sorted((s.Handle, s.StateVersion, s.DescriptorVersion) for s in cm.context_states.objects)),
+                RT_ADDED[0])
+
     def deliver(self, ex):
         import http.client
         from world import _RespSocket
+        before = self.fingerprint() if self.cm is not None else None
         raw = self.cons._verif_server.handle_raw(ex.request, ('127.0.0.1', 29999))
         resp = http.client.HTTPResponse(_RespSocket(raw), method='POST')
         resp.begin()
         r = dict(self.parse(ex))
         r['status'] = resp.status
+        if self.cm is not None:
+            after = self.fingerprint()
+            r['changed'] = [k for k, (a, b) in enumerate(zip(before, after)) if a != b]   # indices of the parts that differ
+            r['again'] = id(ex) in self.delivered_ids          # this very notification was delivered before (since the last reload)
+            self.delivered_ids.add(id(ex))
         return r
 
     def do_setctx(self, op):
@@ -205,6 +237,7 @@ class Runner:
             self.pm.instance_id = (self.pm.instance_id or 0) + 1
 
     def do_reload(self, op):
+        self.delivered_ids = set()
         # notifications that arrive while GetMdib is in flight are delivered from inside the transport hook
         inflight = [1] if op.get('inflight') else []
         self.inflight_delivered = []
@@ -419,10 +452,13 @@ class Runner:
                         todo, self.pending = [self.pending[-1]], self.pending[:-1]
                     elif isinstance(tok, list) and tok[0] == 'replay' and self.stored:
                         todo = [self.stored[tok[1] % len(self.stored)]]
+                    elif tok == 'last' and self.last_ex is not None:
+                        todo = [self.last_ex]       # the newest notification the consumer has seen, once more
                     elif isinstance(tok, int) and 0 <= tok < len(self.stored):
                         todo = [self.stored[tok]]
                     for ex in todo:
                         delivered.append(self.deliver(ex))
+                        self.last_ex = ex
             step = {'res': res, 'prov': delta(prev_p, cur_p), 'reports': reports, 'delivered': delivered}
             if self.resolved is not None:
                 step['resolved'] = self.resolved
